@@ -8,6 +8,8 @@ import (
 	"io"
 	"math"
 	"net/http"
+	"net/url"
+	"os"
 	"strconv"
 	"strings"
 	"sync"
@@ -79,6 +81,15 @@ type c06Body struct {
 
 var errC06Body = errors.New("fake body read error")
 
+// c06TimeoutErr is shaped like the error net/http's client reports when its Timeout fires during a body read.
+type c06TimeoutErr struct{}
+
+func (c06TimeoutErr) Error() string {
+	return "context deadline exceeded (Client.Timeout or context cancellation while reading body)"
+}
+func (c06TimeoutErr) Timeout() bool   { return true }
+func (c06TimeoutErr) Temporary() bool { return true }
+
 func (b *c06Body) Read(p []byte) (int, error) {
 	b.mu.Lock()
 	defer b.mu.Unlock()
@@ -88,7 +99,9 @@ func (b *c06Body) Read(p []byte) (int, error) {
 	if b.r.FailAt >= 0 && b.pos >= b.r.FailAt {
 		b.sawErr = true
 		// the kinds of error a body read ends with when the server dies midway
-		return 0, []error{errC06Body, io.ErrUnexpectedEOF, fmt.Errorf("read tcp: %w", io.ErrUnexpectedEOF), errors.New("http: unexpected EOF reading trailer"), io.ErrClosedPipe}[b.r.FailAt%5]
+		// ... or when the client's timeout expires while the body is still arriving (errors that say Timeout() == true)
+		return 0, []error{errC06Body, io.ErrUnexpectedEOF, fmt.Errorf("read tcp: %w", io.ErrUnexpectedEOF), errors.New("http: unexpected EOF reading trailer"), io.ErrClosedPipe,
+			os.ErrDeadlineExceeded, c06TimeoutErr{}}[b.r.FailAt%7]
 	}
 	remaining := len(b.r.Body) - b.pos
 	if remaining == 0 {
@@ -204,7 +217,7 @@ func c06Reason(code int) string {
 
 func c06ValidMethod(m string) bool {
 	if m == "" {
-		return false
+		return true // net/http: "For client requests, an empty string means GET"
 	}
 	for _, r := range m {
 		if !(r >= 'A' && r <= 'Z' || r >= 'a' && r <= 'z' || r >= '0' && r <= '9' || strings.ContainsRune("!#$%&'*+-.^_`|~", r)) {
@@ -267,7 +280,16 @@ func runC06(c c06Case) error {
 		}
 		first := seen[0]
 		// ---- the request that reached the transport
-		if first.Method != ex.Method || first.URL != ex.URL {
+		// (net/http documents the empty method as GET and sends a URL in its own spelling: upper-case schemes, blanks and
+		// non-ASCII letters in paths and empty fragments are legal in a target and reach the transport normalised)
+		wantMethod, wantURL := ex.Method, ex.URL
+		if wantMethod == "" {
+			wantMethod = "GET"
+		}
+		if u, perr := url.Parse(ex.URL); perr == nil {
+			wantURL = u.String()
+		}
+		if first.Method != wantMethod || first.URL != wantURL {
 			return fmt.Errorf("%s: transport saw %s %s", what, first.Method, first.URL)
 		}
 		if !bytes.Equal(first.Body, ex.Body) || first.ContentLength != int64(len(ex.Body)) {
@@ -482,6 +504,14 @@ func c06Gen(t *rapid.T) c06Case {
 			ex.Method = rapid.SampledFrom([]string{"GET", "POST", "PUT", "DELETE", "HEAD", "PATCH", "OPTIONS"}).Draw(t, l+".method")
 		}
 		ex.URL = rapid.SampledFrom([]string{"http://", "https://"}).Draw(t, l+".scheme") + rapid.StringMatching(`[a-z]{1,8}\.test(:[1-9][0-9]{1,3})?(/[a-zA-Z0-9._~-]{0,8}){0,3}(\?[a-z]=[a-z0-9]{0,4})?`).Draw(t, l+".url")
+		if rapid.IntRange(0, 5).Draw(t, l+".oddurl") == 0 {
+			// legal URLs that are not in the spelling net/url prints: the result still carries the target's own text
+			ex.URL = rapid.SampledFrom([]string{"HTTP://a.test/", "hTTps://a.test/x", "http://a.test/a b", "http://a.test/caf\u00e9", "http://a.test/p?q=1#", "http://a.test/p#", "http://a.test?x=1",
+				"http://a.test/%7Euser", "http://a.test/a%2fb", "http://A.Test/", "http://a.test:80/", "http://a.test/?q=a b", "http://a.test/[x]"}).Draw(t, l+".oddurltext")
+		}
+		if rapid.IntRange(0, 11).Draw(t, l+".emptymethod") == 0 {
+			ex.Method = ""
+		}
 		ex.Headers = c06Headers(t, l+".h", true)
 		ex.Body = c06Bytes(t, l+".body", []int{-1, -1, 0, 1, 10, 1000, 200 * 1024})
 		if len(ex.Body) == 0 {
